@@ -26,6 +26,14 @@ isControlFrame(ws_ctx_t *wsctx)
   return 0 != (wsctx->header.opcode & 0x08);
 }
 
+/* RFC 6455, 5.2: opcodes 0x3-0x7 and 0xB-0xF are reserved; an endpoint that
+ * receives one MUST fail the connection. */
+static inline int
+isReservedOpcode(unsigned char opcode)
+{
+  return (opcode >= 0x03 && opcode <= 0x07) || opcode >= 0x0B;
+}
+
 static uint64_t
 hybiRemaining(ws_ctx_t *wsctx)
 {
@@ -192,6 +200,11 @@ hybiReadHeader(ws_ctx_t *wsctx, int *sockRet, int *nPayload)
 
   wsctx->header.opcode = wsctx->header.data->b0 & 0x0f;
   wsctx->header.fin = (wsctx->header.data->b0 & 0x80) >> 7;
+  if (isReservedOpcode(wsctx->header.opcode)) {
+    rfbErr("%s: reserved opcode %d received, aborting\n", __func__, (int)wsctx->header.opcode);
+    errno = EPROTO;
+    goto err_cleanup_state;
+  }
   if (isControlFrame(wsctx)) {
     ws_dbg("is control frame\n");
     /* is a control frame, leave remembered continuation opcode unchanged;
@@ -232,6 +245,14 @@ hybiReadHeader(ws_ctx_t *wsctx, int *sockRet, int *nPayload)
   }
 
   wsctx->header.payloadLen = (uint64_t)(wsctx->header.data->b1 & 0x7f);
+
+  /* RFC 6455, 5.5: all control frames MUST have a payload length of 125 bytes
+   * or less; the payload of longer ones would never fit the decode buffer */
+  if (isControlFrame(wsctx) && wsctx->header.payloadLen > 125) {
+    rfbErr("%s: control frame with more than 125 bytes of payload received, aborting\n", __func__);
+    errno = EPROTO;
+    goto err_cleanup_state;
+  }
   ws_dbg("first header bytes received; opcode=%d lenbyte=%d fin=%d\n", wsctx->header.opcode, wsctx->header.payloadLen, wsctx->header.fin);
 
   /*
